@@ -8,16 +8,20 @@ package main
 // the Lean model takes as a parameter — Exec recomputes it and ignores what is given):
 //
 //	hdr  <header-hex>                      [+ <lib>]            real _parse_json_header_ on these bytes
-//	hdrj <annspec> <trail-hex>             [+ <header-hex> <lib>]   header = go-json(ann) ++ trail
+//	hdrj <annspec> <trail-hex>             [+ <floats> <header-hex> <lib>]   header = go-json(ann) ++ trail
 //	title fasta|fastq <title-hex>                               one record with this title line -> chunk parser
 //	q <shiftOut> <shiftIn> <q>                                  one quality value through QualitiesString / FASTQ parser
-//	rt fasta|fastq j|g <shOut> <shIn> <n> (<id-hex> <seq-hex> <qual-hex|-> <annspec>)*n  [+ (<info-hex> <lib>)*n]
+//	rt fasta|fastq j|g <shOut> <shIn> <n> (<id-hex> <seq-hex> <qual-hex|-> <annspec>)*n  [+ <floats> (<info-hex> <lib>)*n]
 //	                                                            real Format*Batch -> real *ChunkParser -> real header parser
 //
+// The Lean model prints the JSON header itself (Model/Json.lean: encoder of strings / numbers / nested maps and lists,
+// key order of go-json) and decodes it itself; <info-hex>/<header-hex> are informative only.  Data for the model:
+// <floats> = "F=" + list of <IEEE bits>:<hex of strconv.FormatFloat(x,'e',-1,64)> (shortest digits: Go's strconv) or "F=-";
 // <lib> = the answers of go-json for every candidate span [s,e) (header[s]='{', header[e-1]='}') of the header the
 // real parser sees: "s:e:x" (Unmarshal error) or "s:e:<digest of decoded map without definition>:<-|d<hex of definition>>".
 import (
 	"bytes"
+	stdjson "encoding/json"
 	"fmt"
 	"hash/fnv"
 	"math"
@@ -27,6 +31,7 @@ import (
 	"strconv"
 	"strings"
 	"time"
+	"unicode/utf8"
 
 	"git.metabarcoding.org/obitools/obitools4/obitools4/pkg/obiformats"
 	"git.metabarcoding.org/obitools/obitools4/obitools4/pkg/obiiter"
@@ -45,6 +50,124 @@ func init() { props["C02"] = c02{} }
 //
 //	s string (hex) | i int | f float64 (IEEE bits, hex) | b bool (0/1)
 //	mi map[string]int k-hex=int,... | ms map[string]string k-hex=v-hex,... | li []int int,...
+//	v  nested value term: S<hex> | I<int> | F<bits> | T | U | Z | L[t,...] ([]interface{}) | M[<hexkey>:t,...] (map[string]interface{})
+var c02Floats []float64 // the floats met by c02ParseAnn since the last reset (data for the model)
+
+func c02FloatTable() string {
+	seen := map[uint64]bool{}
+	var parts []string
+	for _, x := range c02Floats {
+		b := math.Float64bits(x)
+		if seen[b] {
+			continue
+		}
+		seen[b] = true
+		parts = append(parts, fmt.Sprintf("%x:%s", b, hx([]byte(strconv.FormatFloat(x, 'e', -1, 64)))))
+	}
+	if len(parts) == 0 {
+		return "F=-"
+	}
+	return "F=" + strings.Join(parts, ",")
+}
+
+func c02IsHex(c byte) bool { return c >= '0' && c <= '9' || c >= 'a' && c <= 'f' }
+
+func c02HexE(h string) ([]byte, bool) {
+	if h == "" {
+		return []byte{}, true
+	}
+	return unhx(h)
+}
+
+// c02Term parses a nested value term; returns the value, the rest of the text, ok
+func c02Term(t string, depth int) (interface{}, string, bool) {
+	if t == "" || depth > 64 {
+		return nil, "", false
+	}
+	span := func(s string, f func(byte) bool) (string, string) {
+		i := 0
+		for i < len(s) && f(s[i]) {
+			i++
+		}
+		return s[:i], s[i:]
+	}
+	c, r := t[0], t[1:]
+	switch c {
+	case 'S':
+		h, rest := span(r, c02IsHex)
+		b, ok := c02HexE(h)
+		return string(b), rest, ok
+	case 'I':
+		h, rest := span(r, func(c byte) bool { return c >= '0' && c <= '9' || c == '-' })
+		v, err := strconv.ParseInt(h, 10, 64)
+		return int(v), rest, err == nil
+	case 'F':
+		h, rest := span(r, c02IsHex)
+		v, err := strconv.ParseUint(h, 16, 64)
+		x := math.Float64frombits(v)
+		c02Floats = append(c02Floats, x)
+		return x, rest, err == nil
+	case 'T':
+		return true, r, true
+	case 'U':
+		return false, r, true
+	case 'Z':
+		return nil, r, true
+	case 'L':
+		if !strings.HasPrefix(r, "[") {
+			return nil, "", false
+		}
+		r = r[1:]
+		l := []interface{}{}
+		if strings.HasPrefix(r, "]") {
+			return l, r[1:], true
+		}
+		for {
+			v, rest, ok := c02Term(r, depth+1)
+			if !ok || rest == "" {
+				return nil, "", false
+			}
+			l = append(l, v)
+			if rest[0] == ']' {
+				return l, rest[1:], true
+			}
+			if rest[0] != ',' {
+				return nil, "", false
+			}
+			r = rest[1:]
+		}
+	case 'M':
+		if !strings.HasPrefix(r, "[") {
+			return nil, "", false
+		}
+		r = r[1:]
+		m := map[string]interface{}{}
+		if strings.HasPrefix(r, "]") {
+			return m, r[1:], true
+		}
+		for {
+			h, rest := span(r, c02IsHex)
+			kb, ok := c02HexE(h)
+			if !ok || !strings.HasPrefix(rest, ":") {
+				return nil, "", false
+			}
+			v, rest, ok := c02Term(rest[1:], depth+1)
+			if !ok || rest == "" {
+				return nil, "", false
+			}
+			m[string(kb)] = v
+			if rest[0] == ']' {
+				return m, rest[1:], true
+			}
+			if rest[0] != ',' {
+				return nil, "", false
+			}
+			r = rest[1:]
+		}
+	}
+	return nil, "", false
+}
+
 func c02ParseAnn(spec string) (obiseq.Annotation, bool) {
 	ann := obiseq.Annotation{}
 	if spec == "-" {
@@ -79,6 +202,13 @@ func c02ParseAnn(spec string) (obiseq.Annotation, bool) {
 				return nil, false
 			}
 			ann[k] = math.Float64frombits(v)
+			c02Floats = append(c02Floats, math.Float64frombits(v))
+		case "v":
+			v, rest, ok := c02Term(p[2], 0)
+			if !ok || rest != "" {
+				return nil, false
+			}
+			ann[k] = v
 		case "b":
 			ann[k] = p[2] == "1"
 		case "mi":
@@ -140,11 +270,13 @@ func c02Dump(v interface{}) string {
 	if v == nil {
 		return "Z"
 	}
+	// numbers by value: the positional decimal expansion of the shortest digits (an int and the float64 of the same
+	// value are rendered alike; the model computes the same string from the literal of the title line)
 	num := func(x float64) string {
-		if x == math.Trunc(x) && math.Abs(x) < 9.3e18 {
-			return "N" + strconv.FormatInt(int64(x), 10)
+		if x == 0 {
+			return "N0"
 		}
-		return "N" + strconv.FormatFloat(x, 'g', -1, 64)
+		return "N" + strconv.FormatFloat(x, 'f', -1, 64)
 	}
 	rv := reflect.ValueOf(v)
 	switch rv.Kind() {
@@ -218,7 +350,8 @@ func c02Lib(header string) (string, bool) {
 			closes = append(closes, i+1)
 		}
 	}
-	if len(opens)*len(closes) > 900 {
+	if len(opens)*len(closes) > 2500 {
+		stat("lib:too-many-spans")
 		return "", false
 	}
 	var parts []string
@@ -283,10 +416,31 @@ func c02BalancedObj(t string) bool {
 	return false
 }
 
+// c02StdlibOracle: what the writer printed for the annotations, decoded by the standard library's encoding/json
+// (an independent JSON reader), is the annotation map by value.
+func c02StdlibOracle(fail func(sig, format string, a ...any), ann obiseq.Annotation, info string) {
+	if len(ann) == 0 {
+		if info != "" {
+			fail("hyp.json-empty", "no annotation but the header is %q", info)
+		}
+		return
+	}
+	var back map[string]interface{}
+	if err := stdjson.Unmarshal([]byte(info), &back); err != nil {
+		fail("hyp.json-stdlib", "encoding/json rejects the header %q: %v", info, err)
+		return
+	}
+	want := c02Dump(map[string]interface{}(ann))
+	if got := c02Dump(back); got != want {
+		fail("hyp.json-stdlib", "header %q decoded by encoding/json is %s, the annotations are %s", info, got, want)
+	}
+}
+
 // ---------------------------------------------------------------- generators
 
 var c02Hostile = []string{`"`, `\`, `{`, `}`, `;`, `=`, `>`, `@`}
-var c02Extra = []string{"\n", "\t", " ", "a", "Z", "0", ":", ",", "'", "/", "é", "漢", "\u00a0", "\u2028", "😀", "\x7f", "\x01", "[", "]"}
+var c02Extra = []string{"\n", "\t", " ", "a", "Z", "0", ":", ",", "'", "/", "é", "漢", "\u00a0", "\u2028", "😀", "\x7f", "\x01", "[", "]",
+	"\u2029", "\b", "\f", "\r", "\u0085", "\x1f", "\x00", "\u07ff", "\u0800", "\uffff", "\U00010000", "\u2027", "\u202a", "\xe2\x80\xa6"}
 
 func c02RandStr(rng *rand.Rand, maxLen int) string {
 	n := rng.Intn(maxLen + 1)
@@ -335,7 +489,9 @@ func c02RandInt(rng *rand.Rand) int64 {
 func c02RandFloat(rng *rand.Rand) float64 {
 	switch rng.Intn(5) {
 	case 0:
-		return []float64{0.5, -0.25, 1e21, 1e-7, 1.5e300, -2.5e-300, 0.1, 3.0, 1e20, 123456789.125, math.MaxFloat64, math.SmallestNonzeroFloat64, 1e6, 1e-6}[rng.Intn(14)]
+		return []float64{0.5, -0.25, 1e21, 1e-7, 1.5e300, -2.5e-300, 0.1, 3.0, 1e20, 123456789.125, math.MaxFloat64, math.SmallestNonzeroFloat64, 1e6, 1e-6,
+			math.Copysign(0, -1), 0, 9.999999e-7, 9.99e20, 9223372036854775808.0, -9223372036854775808.0, 1.8446744073709552e19, 1e300, -1e21,
+			9007199254740993.0, 1e22, 1e23, 0.000001234, 2.2250738585072014e-308, 4.9e-324, 100, 1e-5, 0.3}[rng.Intn(32)]
 	case 1:
 		return rng.NormFloat64() * math.Pow(10, float64(rng.Intn(40)-20))
 	default:
@@ -343,16 +499,70 @@ func c02RandFloat(rng *rand.Rand) float64 {
 	}
 }
 
+// c02RandTerm: a nested value term (see c02Term) of bounded depth
+func c02RandTerm(rng *rand.Rand, depth int) string {
+	hexs := func(x string) string { return strings.TrimPrefix(hx([]byte(x)), "-") }
+	k := rng.Intn(9)
+	if depth <= 0 && k >= 6 {
+		k = rng.Intn(6)
+	}
+	switch k {
+	case 0, 1:
+		return "S" + hexs(c02RandStr(rng, 6))
+	case 2:
+		return fmt.Sprintf("I%d", c02RandInt(rng))
+	case 3:
+		return fmt.Sprintf("F%x", math.Float64bits(c02RandFloat(rng)))
+	case 4:
+		return []string{"T", "U"}[rng.Intn(2)]
+	case 5:
+		return "Z"
+	case 6, 7:
+		var l []string
+		for j := rng.Intn(4); j > 0; j-- {
+			l = append(l, c02RandTerm(rng, depth-1))
+		}
+		return "L[" + strings.Join(l, ",") + "]"
+	default:
+		var l []string
+		u := map[string]bool{}
+		for j := rng.Intn(4); j > 0; j-- {
+			kk := c02RandStr(rng, 3)
+			if rng.Intn(2) == 0 {
+				kk += strconv.Itoa(j)
+			}
+			if u[kk] {
+				continue
+			}
+			u[kk] = true
+			l = append(l, hexs(kk)+":"+c02RandTerm(rng, depth-1))
+		}
+		return "M[" + strings.Join(l, ",") + "]"
+	}
+}
+
+var c02MaxDepth = 3
+
 func c02RandAnn(rng *rand.Rand, maxEntries int) string {
 	n := rng.Intn(maxEntries + 1)
 	if n == 0 {
+		switch rng.Intn(6) {
+		case 0:
+			// the definition is the only annotation
+			return "s." + hx([]byte("definition")) + "." + hx([]byte([]string{"d", `{"a":1}`, "{", " x ", `"`}[rng.Intn(5)]))
+		case 1:
+			// the empty definition annotation
+			return "s." + hx([]byte("definition")) + "."
+		}
 		return "-"
 	}
 	used := map[string]bool{}
 	var es []string
 	for i := 0; i < n; i++ {
 		k := hx([]byte(c02RandKey(rng, used)))
-		switch rng.Intn(9) {
+		switch rng.Intn(11) {
+		case 9, 10:
+			es = append(es, "v."+k+"."+c02RandTerm(rng, c02MaxDepth))
 		case 0, 1, 2:
 			h := hx([]byte(c02RandStr(rng, 8)))
 			if h == "-" {
@@ -401,11 +611,19 @@ func c02RandAnn(rng *rand.Rand, maxEntries int) string {
 			es = append(es, "li."+k+"."+strings.Join(l, ","))
 		}
 	}
-	if rng.Intn(4) == 0 {
+	switch rng.Intn(12) {
+	case 0, 1, 2:
 		h := hx([]byte(strings.TrimSpace(c02RandStr(rng, 10))))
 		if h != "-" {
 			es = append(es, "s."+hx([]byte("definition"))+"."+h)
 		}
+	case 3:
+		// a definition that looks like a JSON object / starts with a brace / holds the hostile patterns
+		d := []string{`{"a":1}`, `{`, `{x} {"y":2}`, `{"k":"x\"}y"}`, `}{`, `{"definition":"d"}`, "{" + c02RandStr(rng, 6), `"{`, `\{`}[rng.Intn(9)]
+		es = append(es, "s."+hx([]byte("definition"))+"."+hx([]byte(d)))
+	case 4:
+		// untrimmed definition (blanks at both ends are part of the annotation value)
+		es = append(es, "s."+hx([]byte("definition"))+"."+hx([]byte(" "+c02RandStr(rng, 6)+"\t ")))
 	}
 	return strings.Join(es, ";")
 }
@@ -425,7 +643,8 @@ func c02RandSeq(rng *rand.Rand, n int) []byte {
 }
 
 func c02RandId(rng *rand.Rand) string {
-	ids := []string{"seq1", "M01334:147:000000000-LBRVD:1:1101:14968:1570", "a", ">x", "@y", "id{1}", `q"uo`, `b\s`, "x;y=z", "é漢", "+p", "HELIUM_000100422_612GNAAXX:7:119:14871:19157#0/1"}
+	ids := []string{"seq1", "M01334:147:000000000-LBRVD:1:1101:14968:1570", "a", ">x", "@y", "id{1}", `q"uo`, `b\s`, "x;y=z", "é漢", "+p", "HELIUM_000100422_612GNAAXX:7:119:14871:19157#0/1",
+		"{x", `{"a":1}`, `"`, `\`, "}", "|#~", "x\u00a0y", "\u2028", "a\x01b", "\x7f", strings.Repeat("L", 300), "{", "=", "A"}
 	if rng.Intn(3) == 0 {
 		var b strings.Builder
 		for i := 1 + rng.Intn(6); i > 0; i-- {
@@ -441,7 +660,7 @@ func c02RandId(rng *rand.Rand) string {
 }
 
 func c02RandRecord(rng *rand.Rand, withQ bool) string {
-	lens := []int{1, 59, 60, 61, 120, 121}
+	lens := []int{1, 59, 60, 61, 120, 121, 2, 119, 180, 181, 0}
 	n := lens[rng.Intn(len(lens))]
 	switch rng.Intn(4) {
 	case 0:
@@ -478,6 +697,20 @@ func (c02) Gen(rng *rand.Rand, tier string, emit func(string)) {
 	} {
 		emit("hdr " + hx([]byte(h)))
 	}
+	// JSON texts no writer of the toolkit prints but its reader accepts: the decoder of the model (escapes, number
+	// syntax, null, nesting) against go-json; texts outside the model (white space, surrogates, duplicate keys,
+	// non-string definition, raw control characters) fall back to go-json's answer
+	for _, h := range []string{
+		`{"a":"\/\b\f\n\r\t\"\\"}`, `{"a":"\u00e9\u00E9\u0041\u07ff\u0800\uffff\u0000"}`, `{"a":"\ud83d\ude00"}`, `{"a":"\ud800"}`, `{"a":"\u12"}`, `{"a":"\x"}`,
+		`{"a":1E5,"b":-0,"c":1.50,"d":0.1e1,"e":1e-2,"f":-12.5E+2,"g":0.000,"h":100}`, `{"a":01}`, `{"a":1.}`, `{"a":.5}`, `{"a":-}`, `{"a":1e}`, `{"a":+1}`, `{"a":1e+}`,
+		`{"a":null,"b":[null,true,false],"c":{}}`, `{"a":[[[[1]]],{"b":{"c":{"d":[]}}}]}`, `{"a":[1,]}`, `{"a":[,1]}`, `{"a":1,}`, `{,"a":1}`, `{"a"}`, `{"a":}`, `{a:1}`,
+		`{ "a" : 1 , "b" : [ 1 , 2 ] }`, "{\"a\":\t1}", `{"a":1,"a":2}`, `{"a":{"k":1,"k":2}}`, `{"definition":"x","definition":"y"}`, `{"definition":[1]}`, `{"definition":null} tail`,
+		`{"a":"x` + "\x01" + `y"}`, `{"a":"` + "\xff" + `"}`, `{"a":true,"b":false}`, `{"a":tru}`, `{"a":truee}`, `{"a":nul}`, `{"a":"b"}x`, `{"":""}`, `{"":{"":[]}}`,
+		`{"a":123456789012345,"b":0.000001,"c":1e21,"d":1e-7,"e":1.5e300}`, `{"a":"é漢😀"} définition`, `{"a":"\u2028\u2029"}`, `{"a":"` + "\u2028" + `"}`,
+		`{"count":3,"merged_sample":{"s1":2,"s2":1},"taxid":"taxon:9606 [Homo sapiens]@species"} a definition`,
+	} {
+		emit("hdr " + hx([]byte(h)))
+	}
 	for _, t := range []string{"id1 {\"a\":1}", "id1", "id1 ", "id1\tdef  two", "id1  \t {\"a\":\"x\\\"}y\"}", " id", "", "id1 >x @y", "i>d @", "id1 {\"a\":1} def"} {
 		emit("title fasta " + hx([]byte(t)))
 		emit("title fastq " + hx([]byte(t)))
@@ -489,6 +722,14 @@ func (c02) Gen(rng *rand.Rand, tier string, emit func(string)) {
 	emit("rt fastq j 64 64 1 73 61636774 005d5e1f i.636f756e74.9007199254740992;f.78.3ff8000000000000")
 	emit("rt fastq j 33 64 1 73 61636774 00051f28 -")
 	emit("rt fastq j 33 33 2 73 6163 1f1f i.61.1 74 6163 1f00 s.62.40")
+	emit("rt fasta j 33 33 1 73 - - i.61.1")
+	emit("rt fastq g 33 33 2 73 61 - - 74 - - -")
+	// nested values, the definition as only annotation, the empty definition, hostile definitions
+	emit("rt fasta j 33 33 1 73 61 - v.6d.M[7b:L[I1,T,Z,M[]],22:S5c227d,:F3ff8000000000000];v.6c.L[L[L[]],M[61:M[62:M[]]]]")
+	emit("rt fastq g 33 33 1 73 61 - s.646566696e6974696f6e.7b2261223a317d")
+	emit("rt fasta g 33 33 1 73 61 - s.646566696e6974696f6e.")
+	emit("rt fasta j 33 33 1 73 61 - s.646566696e6974696f6e.207820;f.78.43e0000000000000;f.79.8000000000000000;f.7a.3eb0c6f7a0b5ed8d")
+	emit("hdrj v.6b.L[F44b52d02c7e14af6,F3eb0c6f7a0b5ed8c,F444b1ae4d6e2ef50,F1] 20e280a87b")
 
 	// every quality value x shift combination
 	for _, so := range []int{33, 64} {
@@ -536,8 +777,10 @@ func (c02) Gen(rng *rand.Rand, tier string, emit func(string)) {
 	}
 
 	n := 1500
+	c02MaxDepth = 3
 	if tier == "thorough" {
 		n = 12000
+		c02MaxDepth = 5
 	}
 	for i := 0; i < n; i++ {
 		switch rng.Intn(10) {
@@ -648,6 +891,7 @@ func (c02) Exec(c string) (string, []Fail) {
 		obioptions.SetInputQualityShift(33)
 	}()
 	stat("op:" + f[0])
+	c02Floats = nil
 
 	// re-parsing a formatted header never changes or loses annotations, for any title line the parser accepts
 	reparse := func(sig string, header string) {
@@ -661,6 +905,10 @@ func (c02) Exec(c string) (string, []Fail) {
 		})
 		if r != "ok" {
 			return // title line not accepted
+		}
+		if !utf8.ValidString(header) {
+			stat("reparse:invalid-utf8-skipped") // outside the universe (go-json prints U+FFFD for an invalid byte)
+			return
 		}
 		stat("reparse:accepted")
 		r = guardT(5*time.Second, func() string {
@@ -684,7 +932,7 @@ func (c02) Exec(c string) (string, []Fail) {
 		}
 		caseOverride = c + " + " + lib
 		if f[0] == "hdrj" {
-			caseOverride = c + " + " + hx([]byte(header)) + " " + lib
+			caseOverride = c + " + " + c02FloatTable() + " " + hx([]byte(header)) + " " + lib
 		}
 		var ann obiseq.Annotation
 		res := guardT(5*time.Second, func() string {
@@ -729,6 +977,10 @@ func (c02) Exec(c string) (string, []Fail) {
 			fail("hyp.json-balanced", "go-json output %q is not one balanced, properly escaped object on one line", info0)
 		}
 		res := hdr(header)
+		if res != "bad-op" {
+			res += " i=" + hx([]byte(info0))
+		}
+		c02StdlibOracle(fail, ann, info0)
 		// oracle: the object the writer produced is found again, whatever follows it
 		if len(ann) > 0 {
 			want := c02Dump(map[string]interface{}(ann))
@@ -827,7 +1079,7 @@ func (c02) Exec(c string) (string, []Fail) {
 				q, ok3 = unhx(f[8+4*j])
 			}
 			ann, ok4 := c02ParseAnn(f[9+4*j])
-			if !ok1 || !ok2 || !ok3 || !ok4 || len(id) == 0 || len(sq) == 0 || (hasQ && len(q) != len(sq)) {
+			if !ok1 || !ok2 || !ok3 || !ok4 || len(id) == 0 || (hasQ && len(q) != len(sq)) {
 				return "bad-op", nil
 			}
 			recs = append(recs, recT{id, sq, q, hasQ, ann})
@@ -858,15 +1110,26 @@ func (c02) Exec(c string) (string, []Fail) {
 			for _, s := range orig {
 				infos = append(infos, obiformats.FormatFastSeqJsonHeader(s))
 			}
-			for _, in := range infos {
+			for j, in := range infos {
 				if in != "" && !c02BalancedObj(in) {
 					fail("hyp.json-balanced", "go-json output %q is not one balanced, properly escaped object on one line", in)
 				}
+				c02StdlibOracle(fail, orig[j].Annotations(), in)
 			}
 			text = c02Write(fm, orig)
 			return "ok"
 		})
 		if w != "ok" {
+			emptySeq := false
+			for _, rc := range recs {
+				emptySeq = emptySeq || len(rc.seq) == 0
+			}
+			if emptySeq && w == "fatal" {
+				// Format*Batch(skipEmpty=false): log.Fatalf("Sequence %s is empty") — outside the property (length >= 1)
+				stat("rt:empty-sequence-fatal")
+				caseOverride = c + " + " + c02FloatTable()
+				return "w=" + w, fails
+			}
 			fail("rt."+fm+".write-"+w, "writing: %s", w)
 			return "w=" + w, fails
 		}
@@ -894,7 +1157,7 @@ func (c02) Exec(c string) (string, []Fail) {
 			caseTrivial = true
 			return "bad-op", nil
 		}
-		aug := c + " +"
+		aug := c + " + " + c02FloatTable()
 		for j := 0; j < nr; j++ {
 			lib := "-"
 			if j < len(libs) {
